@@ -347,6 +347,18 @@ def generate(name, expanded_src=None):
                         a = a[::-1]
                     txt = "#[verifier::external_body] " + rsx.MARK + "\n" + txt.lstrip() + "\n" + \
                         "pub open spec fn %s_w64() -> int { v4(%s) } %s\n" % (parts[2], ", ".join(a), rsx.MARK)
+                if len(parts) > 3 and 'specinit' in parts[3:]:
+                    # associated const with an arithmetic initialiser over const generics (its overflow check is the compiler's:
+                    # a bad instantiation does not compile): opaque constant + the initialiser text as a spec function over
+                    # mathematical integers + the declared link between the two when the value is in range
+                    mm = re.match(r'^\s*(?:pub\s+)?const\s+(\w+)\s*:\s*(\w+)\s*=\s*(.*?);\s*$', txt, re.S)
+                    if not mm:
+                        raise rsx.SliceError("const %s: cannot parse initialiser" % parts[2])
+                    nm, ty, init = mm.group(1), mm.group(2), " ".join(mm.group(3).split())
+                    txt = "#[verifier::external_body] " + rsx.MARK + "\n" + txt.lstrip() + "\n" + \
+                        "pub open spec fn %s_init() -> int { %s } %s\n" % (nm, init, rsx.MARK) + \
+                        "#[verifier::external_body] %s\npub proof fn axiom_%s() ensures 0 <= Self::%s_init() <= %s::MAX ==> Self::%s as int == Self::%s_init() {} %s\n" % (
+                            rsx.MARK, nm, nm, ty, nm, nm, rsx.MARK)
                 if len(parts) > 3 and 'opaque' in parts[3:]:
                     # the initialiser calls an exec fn (compile-time evaluation): keep the text, make the value opaque to Verus
                     txt = "#[verifier::external_body] " + rsx.MARK + "\n" + txt.lstrip()
